@@ -3,7 +3,7 @@
    sequence; the documented loop, past-the-end behaviour, reset and clone follow
    for every kind and every count from the cursor laws. *)
 From Coq Require Import ZArith NArith QArith List Bool Lia.
-From MptV Require Import C19.IterModel C19.IterSpec C19.IterProofs C19.IterText C19.IterString.
+From MptV Require Import C19.IterModel C19.IterSpec C19.IterProofs C19.IterText C19.IterString C19.IterSource.
 Import ListNotations.
 Local Open Scope N_scope.
 
@@ -19,7 +19,7 @@ Notation denoted := (denoted rnd).
 Definition inv (s : src) : Prop :=
   match s with
   | SLin m => inv_lin m | SFac m => inv_fac rnd m | SBnd m => inv_bnd m | SPol m => inv_pol rnd m
-  | SVal m => inv_val m | SStr m => inv_str m | SBuf m => inv_buf m
+  | SVal m => inv_val m | SStr m => inv_str m | SBuf m => inv_buf m | SSrc m => inv_csrc m
   end.
 
 Lemma counted_abs s : nostr s = true -> counted (abs s) = true.
@@ -30,12 +30,13 @@ Qed.
 
 Lemma c_inv_abs s : inv s -> c_inv (abs s).
 Proof.
-  destruct s as [m|m|m|m|m|m|m]; cbn [inv]; intros I.
+  destruct s as [m|m|m|m|m|m|m|m]; cbn [inv]; intros I.
   - exact I.
   - exact (proj1 I).
   - exact I.
   - cbn [abs c_inv]. rewrite pol_len. exact (proj1 I).
   - rewrite abs_val. exact Logic.I.
+  - exact Logic.I.
   - exact Logic.I.
   - exact Logic.I.
 Qed.
@@ -45,7 +46,7 @@ Lemma sim_value s : inv s -> nostr s = true ->
   let (v, s') := it_value rnd s in
   inv s' /\ nostr s' = true /\ abs s' = abs s /\ vmatch v (s_value (abs s)) /\ (v = VNone -> s' = s).
 Proof.
-  destruct s as [m|m|m|m|m|m|m]; cbn [inv nostr]; intros I N; try discriminate.
+  destruct s as [m|m|m|m|m|m|m|m]; cbn [inv nostr]; intros I N; try discriminate.
   - pose proof (lin_value_sim rnd m) as [H1 H2]. destruct (it_value rnd (SLin m)) as [v s'].
     cbn [fst snd] in *. subst s'. auto.
   - pose proof (fac_value_sim rnd m I) as [H1 H2]. destruct (it_value rnd (SFac m)) as [v s'].
@@ -62,13 +63,15 @@ Proof.
     cbn [fst snd] in *. subst s'. auto.
   - pose proof (buf_value_sim rnd m I) as [H1 H2]. destruct (it_value rnd (SBuf m)) as [v s'].
     cbn [fst snd] in *. subst s'. auto.
+  - pose proof (csrc_value_sim rnd m I) as [H1 H2]. destruct (it_value rnd (SSrc m)) as [v s'].
+    cbn [fst snd] in *. subst s'. auto.
 Qed.
 
 Lemma sim_advance s : inv s -> nostr s = true ->
   let (r, s') := it_advance rnd s in
   inv s' /\ nostr s' = true /\ s_advance (abs s) = (cls r, abs s') /\ ((r < 0)%Z -> s' = s).
 Proof.
-  destruct s as [m|m|m|m|m|m|m]; cbn [inv nostr it_advance]; intros I N; try discriminate.
+  destruct s as [m|m|m|m|m|m|m|m]; cbn [inv nostr it_advance]; intros I N; try discriminate.
   - pose proof (lin_advance_sim m I) as H. destruct (lin_advance m) as [r m'].
     destruct H as [H1 [H2 H3]]. split; [exact H1|split; [reflexivity|split; [exact H2|intros X; now rewrite (H3 X)]]].
   - pose proof (fac_advance_sim rnd m I) as H. destruct (fac_advance rnd m) as [r m'].
@@ -83,19 +86,22 @@ Proof.
     destruct H as [H1 [H2 [H3 [H4 H5]]]]. split; [exact H1|split; [reflexivity|split]].
     + rewrite !abs_buf, H3. exact H4.
     + intros X. now rewrite (H5 X).
+  - pose proof (csrc_advance_sim m I) as H. destruct (csrc_advance m) as [r m'].
+    destruct H as [H1 [H2 H3]]. split; [exact H1|split; [reflexivity|split; [exact H2|intros X; now rewrite (H3 X)]]].
 Qed.
 
 Lemma sim_reset s : inv s -> nostr s = true ->
   let (r, s') := it_reset s in
   inv s' /\ nostr s' = true /\ abs s' = s_reset (abs s) /\ (0 <= r)%Z.
 Proof.
-  destruct s as [m|m|m|m|m|m|m]; cbn [inv nostr it_reset]; intros I N; try discriminate.
+  destruct s as [m|m|m|m|m|m|m|m]; cbn [inv nostr it_reset]; intros I N; try discriminate.
   - pose proof (lin_reset_sim m) as H. destruct (lin_reset m). destruct H as [H1 [H2 H3]]. auto.
   - pose proof (fac_reset_sim rnd m) as H. destruct (fac_reset m). destruct H as [H1 [H2 H3]]. auto.
   - pose proof (bnd_reset_sim m) as H. destruct (bnd_reset m). destruct H as [H1 [H2 H3]]. auto.
   - pose proof (pol_reset_sim rnd m) as H. destruct (pol_reset m). destruct H as [H1 [H2 H3]]. auto.
   - pose proof (val_reset_sim m I) as H. destruct (val_reset m). destruct H as [H1 [H2 H3]]. auto.
   - pose proof (buf_reset_sim m) as H. destruct (buf_reset m). destruct H as [H1 [H2 H3]]. auto.
+  - pose proof (csrc_reset_sim m I) as H. destruct (csrc_reset m). destruct H as [H1 [H2 H3]]. auto.
 Qed.
 
 Lemma sim_clone s : nostr s = true ->
@@ -104,7 +110,7 @@ Lemma sim_clone s : nostr s = true ->
   | None => s_clone (abs s) = None
   end.
 Proof.
-  destruct s as [m|m|m|m|m|m|m]; cbn [nostr it_clone]; intros N; try discriminate;
+  destruct s as [m|m|m|m|m|m|m|m]; cbn [nostr it_clone]; intros N; try discriminate;
     try (split; reflexivity); try reflexivity.
   rewrite abs_val. split; reflexivity.
 Qed.
@@ -140,18 +146,19 @@ Proof. now destruct s. Qed.
 Lemma numeric_value s : numeric s = true ->
   match fst (it_value rnd s) with VNone => True | VNum _ (Some _) => True | _ => False end.
 Proof.
-  destruct s as [m|m|m|m|m|m|m]; cbn [numeric]; intros N; try discriminate; cbn [it_value fst].
+  destruct s as [m|m|m|m|m|m|m|m]; cbn [numeric]; intros N; try discriminate; cbn [it_value fst].
   - now destruct (lin_value rnd m).
   - now destruct (fac_value m).
   - now destruct (bnd_value m).
   - destruct (pol_value rnd m) as [[v|] m']; exact Logic.I.
   - now destruct (val_value m).
+  - now destruct (csrc_value m).
 Qed.
 
 Lemma numeric_step s : numeric s = true -> numeric (snd (it_value rnd s)) = true /\
   numeric (snd (it_advance rnd s)) = true.
 Proof.
-  destruct s as [m|m|m|m|m|m|m]; cbn [numeric]; intros N; try discriminate; cbn [it_value it_advance];
+  destruct s as [m|m|m|m|m|m|m|m]; cbn [numeric]; intros N; try discriminate; cbn [it_value it_advance];
     split; try reflexivity.
   - now destruct (lin_advance m).
   - now destruct (fac_advance rnd m).
@@ -159,6 +166,7 @@ Proof.
   - now destruct (pol_value rnd m).
   - now destruct (pol_advance m).
   - now destruct (val_advance m).
+  - now destruct (csrc_advance m).
 Qed.
 
 (* the documented loop *)
@@ -282,7 +290,7 @@ Proof.
   intros I. destruct (nostr s) eqn:N.
   - pose proof (sim_value s I N) as H. destruct (it_value rnd s) as [v s'].
     destruct H as [I' [_ [A [VM _]]]]. rewrite (s_read_counted _ (counted_abs s N)). auto.
-  - destruct s as [m|m|m|m|m|m|m]; try discriminate. cbn [it_value inv] in *.
+  - destruct s as [m|m|m|m|m|m|m|m]; try discriminate. cbn [it_value inv] in *.
     pose proof (str_value_sim rnd m I) as H. destruct (str_value m) as [v m']. exact H.
 Qed.
 
@@ -293,7 +301,7 @@ Proof.
   intros I. destruct (nostr s) eqn:N.
   - pose proof (sim_advance s I N) as H. destruct (it_advance rnd s) as [r s'].
     destruct H as [I' [_ [SA _]]]. split; [assumption|]. exists (cls r). split; [assumption|apply amatch_cls].
-  - destruct s as [m|m|m|m|m|m|m]; try discriminate. cbn [it_advance inv] in *.
+  - destruct s as [m|m|m|m|m|m|m|m]; try discriminate. cbn [it_advance inv] in *.
     pose proof (str_advance_sim m I) as H. destruct (str_advance m) as [r m']. exact H.
 Qed.
 
@@ -303,7 +311,7 @@ Lemma gsim_reset s : inv s ->
 Proof.
   intros I. destruct (nostr s) eqn:N.
   - pose proof (sim_reset s I N) as H. destruct (it_reset s) as [r s']. destruct H as [I' [_ [A R]]]. auto.
-  - destruct s as [m|m|m|m|m|m|m]; try discriminate. cbn [it_reset inv] in *.
+  - destruct s as [m|m|m|m|m|m|m|m]; try discriminate. cbn [it_reset inv] in *.
     pose proof (str_reset_sim m I) as H. destruct (str_reset m) as [r m']. exact H.
 Qed.
 
@@ -315,7 +323,7 @@ Lemma gsim_clone s : inv s ->
 Proof.
   intros I. destruct (nostr s) eqn:N.
   - pose proof (sim_clone s N) as H. destruct (it_clone s) as [c|]; [|exact H]. destruct H as [-> H]. auto.
-  - destruct s as [m|m|m|m|m|m|m]; try discriminate. cbn [it_clone inv] in *. exact (str_clone_sim m I).
+  - destruct s as [m|m|m|m|m|m|m|m]; try discriminate. cbn [it_clone inv] in *. exact (str_clone_sim m I).
 Qed.
 
 (* mpt_iterator_consume(it, 0, 0) - skip the current element - is an advance: the cursor moves the same way,
@@ -358,7 +366,7 @@ Proof.
     pose proof (sim_advance s1 I1 N1) as SA. destruct (it_advance rnd s1) as [r s2].
     destruct SA as [I2 [_ [SA _]]]. split; [assumption|]. exists (cls r). rewrite <- A1. split; [assumption|].
     rewrite A1. now apply zmatch_cls. }
-  destruct s as [m|m|m|m|m|m|m]; try (apply NUM; [reflexivity|exact Logic.I]).
+  destruct s as [m|m|m|m|m|m|m|m]; try (apply NUM; [reflexivity|exact Logic.I]).
   - (* text iterator: no conversion takes place *)
     cbn [inv it_advance] in *. pose proof (str_advance_sim m I) as SA. destruct (str_advance m) as [r m'].
     destruct SA as [I' [a [SA AM]]]. split; [assumption|]. exists a. split; [assumption|].
@@ -450,7 +458,7 @@ Qed.
    sequence, the source itself is not touched.  Text and buffer iterators hand out other texts (separator
    configuration / command string): the operation is specified for the generators. *)
 Definition desc_ok (s : option src) : bool :=
-  match s with Some (SStr _) | Some (SBuf _) => false | _ => true end.
+  match s with Some (SStr _) | Some (SBuf _) | Some (SSrc _) => false | _ => true end.
 Definition prim_at (st : option src * option src) (o : op * bool) : bool :=
   match fst o with
   | ORedesc => desc_ok (if snd o then snd st else fst st)
@@ -469,7 +477,7 @@ Lemma gsim_redesc s : inv s -> desc_ok (Some s) = true ->
   | _ => False
   end.
 Proof.
-  intros I D. destruct s as [m|m|m|m|m|m|m]; cbn [desc_ok] in D; try discriminate; cbn [it_redesc];
+  intros I D. destruct s as [m|m|m|m|m|m|m|m]; cbn [desc_ok] in D; try discriminate; cbn [it_redesc];
     try (split; [unfold BadType; lia|cbn [abs]; eauto]).
   cbn [inv] in I. destruct (val_reset_ok m I) as [_ E]. rewrite E. cbn [option_map].
   pose proof (val_reset_sim m I) as H. destruct (val_reset m) as [r m']. cbn [snd]. destruct H as [I' [A _]].
@@ -506,6 +514,33 @@ Proof.
   pose proof (step_refines_at st cst o R0 R1 P1) as H.
   destruct (mstep rnd st o) as [st' x], (sstep rnd cst o) as [cst' y].
   destruct H as [H0 [H1 H2]]. constructor; [assumption|]. now apply IH.
+Qed.
+
+(* ---- mpt::source<T> (mptcore/types.h): the constructor result satisfies the invariant and stands at the start of
+   what it denotes; a negative length denotes nothing (WITH docs/C19_span_negative_length.diff); with step 1 it
+   denotes the first len elements in order.  [inv] / [numeric] make every protocol theorem of this file apply. *)
+Theorem source_fresh : forall elems len step ty,
+  step <> 0%Z -> (0 < ty)%Z -> (len <= Z.of_nat (length elems))%Z ->
+  let s := SSrc (mk_csrc elems len step ty) in
+  inv s /\ numeric s = true /\ remaining (abs s) = denoted (abs s) /\
+  ((len < 0)%Z -> denoted (abs s) = []) /\
+  (step = 1%Z -> (0 <= len)%Z -> denoted (abs s) = map EV (firstn (Z.to_nat len) elems)) /\
+  srel (Some s) (Some (abs s)).
+Proof.
+  intros elems len step ty NZ TY LE s.
+  assert (I : inv s) by (cbn [inv s]; split; assumption).
+  split; [exact I|]. split; [reflexivity|].
+  destruct (mk_csrc_fresh elems len step ty NZ TY LE) as [[_ P]|[_ [N E]]].
+  - split; [unfold s; rewrite abs_csrc; rewrite P; reflexivity|].
+    split; [|split; [|split; [exact I|reflexivity]]].
+    + intros N. unfold s. rewrite abs_csrc. unfold mk_csrc. cbn [c_elems].
+      replace (Z.max len 0) with 0%Z by lia. reflexivity.
+    + intros -> L. unfold s. rewrite abs_csrc. unfold csrc_start. cbn [mk_csrc c_elems c_step].
+      replace (Z.max len 0) with len by lia. cbn [Z.ltb Z.compare]. cbn [denoted s_reset IterSpec.remaining].
+      apply cvisit_all.
+  - split; [unfold s; rewrite abs_csrc; rewrite E; reflexivity|].
+    split; [|split; [lia|split; [exact I|reflexivity]]].
+    intros _. unfold s. rewrite abs_csrc. rewrite E. reflexivity.
 Qed.
 
 (* segments of a buffer are no numbers: consuming one as double and the documented loop (which converts to
